@@ -154,9 +154,7 @@ def check_view(prog, eff, view, obs):
 
     for a, b in itertools.combinations(valued, 2):  # a declared before b
         if val(a) == val(b):
-            if elts[a]["kind"] == "method" and elts[b]["kind"] == "method" and own[a] != own[b]:
-                abst["methods-of-different-classes"] += 1
-                continue
+            # (methods of a base class are declared before those of its subclasses, like fields: no abstention)
             first, second, why = a, b, "declaration-order"
         else:
             first, second = (a, b) if val(a) < val(b) else (b, a)
